@@ -232,6 +232,8 @@ def run_schedule(payload, rnd=None):
         if fixed is None:
             payload['sched'] = sched
         en = S.enabled()
+        if not en:
+            result = 'deadlock' if any(v != 'done' for v in S.state.values()) else 'done'
         obs = {'executed': executed, 'reported': reported, 'before_run': hooks['before_run'],
                'after_run': hooks['after_run'], 'cycles': hooks['cycles'],
                'unpaused': r._unpaused.flag, 'stop': r._stop.flag, 'final': Interpreter.final.fget(it),
@@ -328,20 +330,31 @@ class C20(Prop):
             res.violations.append('consumed events %s are not a prefix of the queued events %s' % (consumed, queued))
         if ex.count('<init>') > 1 or (ex and ex[0] != '<init>'):
             res.violations.append('unexpected macro step sequence %s' % ex)
-        # pause: at most one cycle starts between the return of pause() and the next unpause/stop
+        # pause: once pause() has returned, only the cycle already under way (the runner passed its
+        # wait and has not reached the next one) may still call before_execute, and only if it has not yet
         if single:
-            started = None
+            allowed = None            # None: not paused
+            last_runner = None
+            cycle_started = False     # before_execute already called in the cycle under way
             for nm, lab in trace:
-                if nm.startswith('client') and lab == 'clear':
-                    started = 0
-                elif nm.startswith('client') and lab == 'set':
-                    started = None
-                elif nm == 'runner' and lab == 'before_execute' and started is not None:
-                    started += 1
-                    if started > 1:
-                        res.violations.append('two cycles started after pause() returned')
-                        break
-                    res.features.add('cycle-after-pause')
+                if nm == 'runner':
+                    if lab == 'wait':
+                        cycle_started = False
+                    if lab == 'before_execute':
+                        cycle_started = True
+                        if allowed is not None:
+                            if allowed <= 0:
+                                res.violations.append('a cycle started after pause() returned although none was under way')
+                                break
+                            allowed -= 1
+                            res.features.add('cycle-after-pause')
+                    last_runner = lab
+                elif lab == 'clear':
+                    under_way = last_runner in ('wait', 'final', 'is_set', 'before_execute', 'execute_once', 'after_execute')
+                    allowed = 1 if (under_way and not cycle_started) else 0
+                    res.features.add('pause-under-way' if under_way else 'pause-at-gate')
+                elif lab == 'set':
+                    allowed = None
         # stop(): returns, nothing executes afterwards
         joins = [i for i, (nm, lab) in enumerate(trace) if nm.startswith('client') and lab == 'join']
         if joins and any(nm == 'runner' and lab == 'execute_once' for nm, lab in trace[joins[0] + 1:]):
